@@ -185,7 +185,11 @@ static void c3_case(uint64_t idx, void *vctx)
                 if (inside && ao->kind) ain[(y - ao->oy) * AW + (x - ao->ox)] = 1;
             }
             memset(g.base, fill, g.total); memset(ga.base, fill, ga.total);
-            pixman_image_composite32(PIXMAN_OP_SRC, src, msk, dst, sx, sy, mx, my, dx, dy, rw, rh);
+            /* the second run goes through the 16-bit entry point pixman_image_composite whenever the request fits its argument types */
+            if (run == 1 && rw < 65536 && rh < 65536)
+                pixman_image_composite(PIXMAN_OP_SRC, src, msk, dst, (int16_t)sx, (int16_t)sy, (int16_t)mx, (int16_t)my, (int16_t)dx, (int16_t)dy, (uint16_t)rw, (uint16_t)rh);
+            else
+                pixman_image_composite32(PIXMAN_OP_SRC, src, msk, dst, sx, sy, mx, my, dx, dy, rw, rh);
             vf_count_libcalls(1);
             int bx, by, kind;
             char what[400];
